@@ -140,7 +140,7 @@ class Seq:
 
     def __repr__(self):
         inner = ", ".join(show_part(p) for p in self.parts)
-        return f"cat({inner})" if self.kind == "bytes" else f"[{inner}]"
+        return f"cat({inner})" if self.kind in ("bytes", "str") else f"[{inner}]"
 
 
 class Tup:
@@ -168,8 +168,8 @@ def show_part(p) -> str:
 def _as_seq(v):
     if isinstance(v, Seq):
         return v
-    if isinstance(v, Term) and v.kind == "bytes":
-        return Seq("bytes", (("e", v.text),))
+    if isinstance(v, Term) and v.kind in ("bytes", "str"):
+        return Seq(v.kind, (("e", v.text),) if v.text not in ("''", "b''") else ())
     return None
 
 
@@ -278,6 +278,7 @@ class Summariser:
         self.fn = fn
         self.loop_id = 0
         self.params = params or {}
+        self._locals = {a.arg for a in fn.args.args + fn.args.kwonlyargs} | {n.id for n in ast.walk(fn) if isinstance(n, ast.Name) and isinstance(n.ctx, ast.Store)}
         self.depth = 0  # > 0 inside loop bodies / comprehensions: branches are merged there, forked at top level
         self.atoms = {}  # condition text -> (atoms if true, atoms if false)
         self.condterms = {}  # text of a conditional term -> (condition text, text if true, text if false)
@@ -472,6 +473,7 @@ class Summariser:
         """Evaluate statements; returns a tree of states."""
         for i, st in enumerate(stmts):
             if isinstance(st, ast.If):
+                self.record_calls(st.test, state)
                 ct, cf, _ = self.cond(st.test, state.env)
                 tt = self.block(st.body, state.fork())
                 ft = self.block(st.orelse, state.fork()) if st.orelse else Leaf(state.fork())
@@ -686,12 +688,60 @@ class Summariser:
         return Term(t, kind)
 
     # ------------------------------------------------------------------ statements
+    PURE_NAMES = {"len", "int", "str", "bytes", "bytearray", "float", "bool", "list", "dict", "tuple", "set", "frozenset", "sorted", "reversed", "enumerate", "zip", "range", "min", "max", "sum",
+                  "abs", "isinstance", "issubclass", "hasattr", "getattr", "callable", "type", "id", "repr", "hex", "oct", "bin", "ord", "chr", "format", "any", "all", "iter", "map", "filter", "super"}
+    PURE_ATTRS = {"join", "format", "encode", "decode", "strip", "lstrip", "rstrip", "split", "upper", "lower", "startswith", "endswith", "replace", "get", "keys", "values", "items", "copy", "index", "count",
+                  "pack", "unpack", "unpack_from", "calcsize", "bit_length", "to_bytes", "from_bytes", "is_alive", "isdigit", "isalpha", "isupper", "islower", "clone", "exception"}
+
+    def _impure(self, call: ast.Call) -> bool:
+        """May this call change or depend on state a rule cares about?  Methods of `self`/`cls`, of parameters and of local
+        objects, and calls of callables held in parameters/locals.  Module-level functions, class-qualified calls and
+        constructors are value computations: their text is part of whatever uses the value."""
+        f = call.func
+        local = self._locals
+        if isinstance(f, ast.Name):
+            return f.id in local and f.id not in self.PURE_NAMES
+        if isinstance(f, ast.Attribute):
+            if f.attr in ("append", "extend") and isinstance(f.value, ast.Name):
+                return False  # accumulators are modelled as values
+            if f.attr in self.PURE_ATTRS or f.attr[:1].isupper():
+                return False
+            root = f.value
+            while isinstance(root, (ast.Attribute, ast.Subscript, ast.Call)):
+                root = root.func if isinstance(root, ast.Call) else root.value
+            return isinstance(root, ast.Name) and (root.id in ("self", "cls") or root.id in local)
+        return True  # the result of a call is called: self.stream_function(5, 4)(result) and the like
+
+    def record_calls(self, expr, state, skip=None):
+        """Every call with a possible effect that the expression makes, in evaluation order, becomes an effect of the path
+        (whether its value is used in a condition, an assignment or thrown away does not matter for what it does)."""
+        if expr is None:
+            return
+
+        def rec(n):
+            if isinstance(n, (ast.Lambda, ast.ListComp, ast.GeneratorExp, ast.DictComp, ast.SetComp)):
+                return
+            for ch in ast.iter_child_nodes(n):
+                rec(ch)
+            if isinstance(n, ast.Call) and n is not skip and self._impure(n):
+                try:
+                    state.effects.append(("call", self.canon(n, state.env)))
+                except Unsupported:
+                    state.effects.append(("call", norm(n)))
+
+        rec(expr)
+
     def stmt(self, st, state) -> State:
         env = state.env
+        if isinstance(st, (ast.Assign, ast.AnnAssign, ast.AugAssign, ast.Return)):
+            self.record_calls(getattr(st, "value", None), state)
+        elif isinstance(st, ast.Raise):
+            self.record_calls(st.exc, state)
         if isinstance(st, ast.Expr):
             if isinstance(st.value, ast.Constant):
                 return state
             if isinstance(st.value, ast.Call):
+                self.record_calls(st.value, state, skip=st.value)
                 c = st.value
                 f = c.func
                 if isinstance(f, ast.Attribute) and isinstance(f.value, ast.Name) and isinstance(env.get(f.value.id), Seq) and f.attr in ("append", "extend") and len(c.args) == 1:
@@ -860,9 +910,9 @@ class Summariser:
             if isinstance(n, ast.Attribute) and isinstance(n.ctx, ast.Store):
                 env.pop("@" + norm(n), None)  # an attribute the loop writes is no longer known by value
         carried = [v for v in sorted(assigned) if v in env and v not in bind]
-        for v in carried:  # a byte string that the loop extends is an accumulator
-            if isinstance(env[v], Term) and env[v].kind == "bytes":
-                env[v] = Seq("bytes", (("e", env[v].text),))
+        for v in carried:  # a byte string / text that the loop extends is an accumulator
+            if isinstance(env[v], Term) and env[v].kind in ("bytes", "str"):
+                env[v] = Seq(env[v].kind, (("e", env[v].text),) if env[v].text not in ("''", "b''") else ())
 
         def marker(v):
             cur = env[v]
@@ -939,6 +989,11 @@ class Summariser:
                 count = solved
                 header = f"times({count})"
         m2 = run_body(env2)
+        for v in opaque:
+            # a variable the loop updates by some other rule: the rule itself is part of the summary (value at the start of
+            # an iteration is `v@loopK`, the value after the loop `v@afterK` is what the last iteration left)
+            if v in m2.env and text(m2.env[v]) != f"{v}@loop{k}":
+                m2.effects.append(("set", f"{v}@loop{k}", text(m2.env[v])))
         out = dict(env)
         for v, d in induction.items():
             out[v] = self.as_poly(env[v]) + count * d
@@ -1011,7 +1066,7 @@ class Summariser:
                 return Poly.const(v)
             if isinstance(v, bytes):
                 return Seq("bytes", (("e", repr(v)),) if v else ())
-            return Term(repr(v))
+            return Term(repr(v), "str" if isinstance(v, str) else None)
         if isinstance(node, ast.Name):
             if node.id in env:
                 return env[node.id]
@@ -1041,6 +1096,8 @@ class Summariser:
                 a, b = b, a
             kind = getattr(a, "kind", None) if getattr(a, "kind", None) == getattr(b, "kind", None) else None
             return self.cond_term(ctext, a, b, kind)
+        if isinstance(node, ast.JoinedStr):
+            return Term(self.canon(node, env), "str")
         if isinstance(node, ast.Dict) and all(isinstance(k, ast.Constant) and isinstance(k.value, str) for k in node.keys):
             return Term(self.canon(node, env), "dict", [(k.value, self._c(v, env)) for k, v in zip(node.keys, node.values)])
         if isinstance(node, ast.Attribute):
@@ -1086,9 +1143,9 @@ class Summariser:
         return tree.state.env[acc]
 
     def binop(self, op, a, b):
-        is_bytes = lambda v: (isinstance(v, Seq)) or getattr(v, "kind", None) == "bytes"  # noqa: E731
+        is_bytes = lambda v: (isinstance(v, Seq)) or getattr(v, "kind", None) in ("bytes", "str")  # noqa: E731
         if isinstance(op, ast.Add) and (is_bytes(a) or is_bytes(b)):
-            kind = a.kind if isinstance(a, Seq) else (b.kind if isinstance(b, Seq) else "bytes")
+            kind = a.kind if isinstance(a, Seq) else (b.kind if isinstance(b, Seq) else (getattr(a, "kind", None) or getattr(b, "kind", None) or "bytes"))
             pa = a.parts if isinstance(a, Seq) else (("e", text(a)),)
             pb = b.parts if isinstance(b, Seq) else (("e", text(b)),)
             return Seq(kind, pa + pb)
